@@ -137,6 +137,27 @@ func checkC03(c c03Case) error {
 		stats.Class("verdict/" + why)
 		stats.Class("alg/" + refcose.AlgName(c.VKeys[0].Alg) + "/" + why)
 		allValid = okRef
+		if okRef {
+			// the same in-memory message, same verifier object, signature bytes edited in place
+			sigp := &m.s1
+			_ = sigp
+			var sl []byte
+			if m.s1 != nil {
+				sl = m.s1.Signature
+			} else {
+				sl = m.u1.Signature
+			}
+			sl[len(sl)/2] ^= 0x10
+			err2 := m.verify(ext, vs[0])
+			sl[len(sl)/2] ^= 0x10
+			if err2 == nil {
+				return finding("accepted-invalid/edited-in-place", "Sign1.Verify still returns nil after the signature bytes of the verified message were edited in place\nwire=%x", []byte(c.Wire))
+			}
+			if err3 := m.verify(ext, vs[0]); err3 != nil {
+				return finding("rejected-valid", "Sign1.Verify fails (%v) after the signature was restored", err3)
+			}
+			stats.Class("reverified-after-in-place-edit")
+		}
 		p := gen.Parent{Kind: refcose.KSign1, BodyProt: env.ProtContent(), Payload: payload, Sig: env.Sig.Content}
 		if err := compareGroups(m.headers().Unprotected, env.Unprot, c.Spec.Groups, m.parent, p, &c, "msg"); err != nil {
 			return err
@@ -158,6 +179,15 @@ func checkC03(c c03Case) error {
 			stats.Class("alg/" + refcose.AlgName(c.VKeys[i].Alg) + "/" + why)
 			if !okRef {
 				allValid = false
+			} else {
+				sl := m.sm.Signatures[i].Signature
+				sl[0] ^= 0x01
+				err2 := m.sm.Signatures[i].Verify(vs[i], bodyRaw, payload, ext)
+				sl[0] ^= 0x01
+				if err2 == nil {
+					return finding("accepted-invalid/edited-in-place", "Signature[%d].Verify still returns nil after its signature bytes were edited in place\nwire=%x", i, []byte(c.Wire))
+				}
+				stats.Class("reverified-after-in-place-edit")
 			}
 			if i < len(c.Spec.Sigs) {
 				sig := m.sm.Signatures[i]
